@@ -721,9 +721,7 @@ def run_once(sc):
             elif kind == "seq_advance":
                 # equivalent to having sent op["n"] further connected messages: the last of them carried the
                 # last count drawn, which is what the target remembers as the previous message's count
-                v = None
-                for _ in range(op["n"]):
-                    v = next(drv._sequence)
+                v = session.advance_sequence(drv, op["n"])
                 if v is not None:
                     for c in env.entry.connections.values():
                         c.last_seq = v
